@@ -49,6 +49,7 @@ type World struct {
 	recording, mayRecord map[*ssa.Function]bool
 	advancing map[*ssa.Function]bool
 	lexDeep     *lbEngine
+	tier string
 	delimDone bool
 	delimCtx  int
 	delimFail []string
